@@ -148,14 +148,19 @@ Example C20_root_negation_and_phrase :
   call_ 0 (P s_phrase) = Done true.
 Proof. vm_compute. repeat split; reflexivity. Qed.
 
-(* remarks of the header: ranges / regexes / open ranges directly after a field, NoneItem *)
-Example C20_field_range_refused :
+(* regression (fix F25): ranges, regexes and comparisons directly after a field are field values; what is not
+   a value (a negation, a plain group, a nested field) is still refused; NoneItem is no construct at all *)
+Example C20_field_range_accepted :
   errors_ 0
-    (SearchField meta0 s_title (Range meta0 (W s_a) (W s_b) true true)) = Done [MFieldExpr] /\
+    (SearchField meta0 s_title (Range meta0 (W s_a) (W s_b) true true)) = Done [] /\
   errors_ 0
-    (SearchField meta0 s_title (Term KRegex meta0 [47;97;47]%N)) = Done [MFieldExpr] /\
+    (SearchField meta0 s_title (Range meta0 (Unary KProhibit meta0 (W s_a)) (W s_b) true true)) = Done [] /\
   errors_ 0
-    (SearchField meta0 s_title (ORange KFrom meta0 (W s_a) true)) = Done [MFieldExpr] /\
+    (SearchField meta0 s_title (Term KRegex meta0 [47;97;47]%N)) = Done [] /\
+  errors_ 0
+    (SearchField meta0 s_title (ORange KFrom meta0 (W s_a) true)) = Done [] /\
+  errors_ 0
+    (SearchField meta0 s_title (Unary KNot meta0 (W s_a))) = Done [MFieldExpr] /\
   errors_ 0 (NoneItem meta0) = Done [MUnknownItem].
 Proof. vm_compute. repeat split; reflexivity. Qed.
 
